@@ -14,8 +14,8 @@
     for plain characters (F06).
     OBLIGATIONS: C01_static_tree_reads_as_its_html C01_static_body_reads_as_its_html C01_static_template_code
                  C01_static_template_literal_value C01_static_document_survives_whitespace_pass
-                 C01_template_with_interpolation_code C01_segments_of_static_tree C01_nonvacuous C01_nonvacuous_dynamic C01_nonvacuous_helpers C01_nonvacuous_class_attribute C01_nonvacuous_filters C01_nonvacuous_braces *)
-From GV Require Import Compiler.Compile Base.Regex Proofs.Utf8Proofs Proofs.QuoteProofs Proofs.EmitProofs Proofs.StaticProofs Proofs.StaticNukeProofs Proofs.DynamicProofs Proofs.SegProofs.
+                 C01_template_with_interpolation_code C01_fragment_test_sound C01_segments_of_static_tree C01_nonvacuous C01_nonvacuous_dynamic C01_nonvacuous_helpers C01_nonvacuous_class_attribute C01_nonvacuous_filters C01_nonvacuous_braces *)
+From GV Require Import Compiler.Compile Base.Regex Proofs.Utf8Proofs Proofs.QuoteProofs Proofs.EmitProofs Proofs.StaticProofs Proofs.StaticNukeProofs Proofs.DynamicProofs Proofs.SegProofs Proofs.FragCheck.
 From Coq Require Import Lia.
 Open Scope N_scope.
 
@@ -88,6 +88,19 @@ Theorem C01_template_with_interpolation_code : forall o body,
       lit "func " ++ t_lit o ++ c_gohtEntry ++ code ++ (if m' then close_text (Lo 2) else []) ++ c_gohtExit.
 Proof. exact dyn_template_code. Qed.
 Print Assumptions C01_template_with_interpolation_code.
+
+(** the hypotheses of the theorem above are decided by an executable test, [body_in_fragment], which is sound; the
+    C01 check runs the extracted test on every template it generates and reports in its evidence to how many of them
+    the theorem applies *)
+Theorem C01_fragment_test_sound : forall o body,
+  body_in_fragment body = true ->
+  exists (m' : bool) code,
+    denotes 2 false m' code (segs_list false body) /\
+    item_err (Node (KGoht o) body) = None /\
+    item_text (Node (KGoht o) body) =
+      lit "func " ++ t_lit o ++ c_gohtEntry ++ code ++ (if m' then close_text (Lo 2) else []) ++ c_gohtExit.
+Proof. intros o body H. destruct (body_in_fragment_sound body H) as [H1 H2]. exact (dyn_template_code o body H1 H2). Qed.
+Print Assumptions C01_fragment_test_sound.
 
 Theorem C01_segments_of_static_tree : forall rho n, static_node n -> eval_segs rho (segs_of false false n) = html_node n.
 Proof. exact eval_static. Qed.
